@@ -22,6 +22,10 @@ where
             }
             upper[i][k] = matrix[i][k] - total;
         }
+        // Every remaining row is divided by this pivot
+        if i + 1 < matrix.height && upper[i][i].abs() < f64::EPSILON {
+            return Err(SolverError::SingularMatrix);
+        }
         for k in i..matrix.height {
             if i == k {
                 lower[i][i] = 1_f64;
